@@ -70,7 +70,7 @@ def r1(ctx):
         ups = ctx.find(name="upsert", self_adt=OBS, self_ty_contains="books::" + side, trait="")
         cb = ctx.ibody(ctor)
         sorts = [(bi, t, tm) for bi, t, tm in cb.real_calls() if mir._strip_generics(tm[1]).rsplit("::", 1)[-1].startswith("sort")]
-        ok = len(sorts) == 1 and sorts[0][2][2][-1][0] == "agg"
+        ok = len(sorts) == 1 and sorts[0][2][2][-1][0] in ("agg", "fnitem")
         ctx.check("OrderBookSide<%s>::%s" % (side, side.lower()), ok, "the constructor sorts the levels once with a comparator",
                   got=[render(s[2])[:160] for s in sorts], key="sort")
         o_sort = None
@@ -88,8 +88,9 @@ def r1(ctx):
             ctx.check("OrderBookSide<%s>::%s" % (side, side.lower()), skip_ok,
                       "the levels are sorted on every path (the sort is skipped at most when they are already in %s order)" %
                       ("descending" if WANT[side] else "ascending"), sites=[sorts[0][1]["sp"]], got=render_guard(g)[:300], key="sort-always")
-            clb, _ = mir.closure_body(ctx.facts, sorts[0][2][2][-1])
-            o = _orientation(clb.return_term())
+            # (a closure literal or a named comparator function: read through the same view)
+            cmp_rt = common.callable_return(ctx, sorts[0][2][2][-1]) or ("const", "?", "")
+            o = _orientation(cmp_rt)
             if o and render(o[1]) == "$1.price" and render(o[2]) == "$2.price":
                 o_sort = o[0]
             elif o and render(o[1]) == "$2.price" and render(o[2]) == "$1.price":
@@ -97,7 +98,7 @@ def r1(ctx):
             n += 1
             ctx.check("OrderBookSide<%s>::%s" % (side, side.lower()), o_sort == WANT[side],
                       "%s are kept %s by price" % (side, "descending" if WANT[side] else "ascending"),
-                      sites=[sorts[0][1]["sp"]], got=render(clb.return_term()), key="sort-order")
+                      sites=[sorts[0][1]["sp"]], got=render(cmp_rt), key="sort-order")
             # the sorted vector is what is stored
             rt = cb.return_term()
             ctx.check("OrderBookSide<%s>::%s" % (side, side.lower()), rt[0] == "agg" and render(dict(zip(rt[2], rt[3])).get("levels")) ==
@@ -116,8 +117,7 @@ def r1(ctx):
         lvl = call[2][1]
         ctx.check("OrderBookSide<%s>::upsert" % side, render(call[2][0]) == "self" and render(lvl) == "Into::into(%s.as:Some.0)" % nx,
                   "into this side's own levels, with the visited level", got=render(call)[:200], key="receiver")
-        cmpc, _ = mir.closure_body(ctx.facts, call[2][2])
-        crt = mir.in_closure(ctx.facts, call[2][2], cmpc.return_term())
+        crt = common.callable_return(ctx, call[2][2]) or ("const", "?", "")
         o = _orientation(crt)
         o_search = None
         target = render(mir.mk_proj(lvl, ("price",)))
@@ -211,7 +211,9 @@ def r3(ctx):
             o = whomay.owner_fn(d)
             if common.is_test(ctx.facts, d) or common.is_derived(ctx.facts, o):
                 continue
-            if mir.short(o) not in ("OrderBook::new", "OrderBook::snapshot", "OrderBook::upsert_bids", "OrderBook::upsert_asks", "OrderBook::default"):
+            # (`OrderBook::update` itself may touch the sides: what it does with them is pinned call by call in R4)
+            if mir.short(o) not in ("OrderBook::new", "OrderBook::snapshot", "OrderBook::upsert_bids", "OrderBook::upsert_asks", "OrderBook::default",
+                                    "OrderBook::update"):
                 bad.append((mir.short(o), fld, kind, sp))
     ctx.check("OrderBook.{bids,asks}", not bad, "sides are written only by the constructors and the upsert entry points", got=bad, key="writers")
 
@@ -224,9 +226,20 @@ def r4(ctx):
             ("self.time_engine", "event.as:Update.0.time_engine", "(event is Update)")}
     ctx.check("OrderBook::update", st == want, "snapshot replaces the whole book; an update takes the update's sequence and time",
               got=sorted(st), want=sorted(want), key="stores")
-    cs = {(mir.short(tm[1]), tuple(render(a) for a in tm[2]), render_guard(b.guard(bi))) for bi, t, tm in b.real_calls()}
-    wantc = {("OrderBook::upsert_bids", ("self", "event.as:Update.0.bids"), "(event is Update)"),
-             ("OrderBook::upsert_asks", ("self", "event.as:Update.0.asks"), "(event is Update)")}
+    # read at the call site: `self.upsert_bids(update.bids)` IS `self.bids.upsert(update.bids.levels)` (the entry points' own bodies,
+    # checked below, with the actual arguments put in), so the helper call and its inlined body are the same statement
+    cs = set()
+    for bi, t, tm in b.real_calls():
+        if mir.short(tm[1]) in ("OrderBook::upsert_bids", "OrderBook::upsert_asks") and tm[1] in ctx.facts.bodies:
+            for bj, t2, tm2 in ctx.ibody(tm[1]).real_calls():
+                tm2 = mir.subst_params(tm2, tm[2])
+                cs.add((mir.short(tm2[1]), "Bids" if "books::Bids>" in tm2[1] else ("Asks" if "books::Asks>" in tm2[1] else "?"),
+                        tuple(render(a) for a in tm2[2]), render_guard(b.guard(bi))))
+        else:
+            cs.add((mir.short(tm[1]), "Bids" if "books::Bids>" in tm[1] else ("Asks" if "books::Asks>" in tm[1] else "?"),
+                    tuple(render(a) for a in tm[2]), render_guard(b.guard(bi))))
+    wantc = {("OrderBookSide::upsert", "Bids", ("self.bids", "event.as:Update.0.bids.levels"), "(event is Update)"),
+             ("OrderBookSide::upsert", "Asks", ("self.asks", "event.as:Update.0.asks.levels"), "(event is Update)")}
     ctx.check("OrderBook::update", cs == wantc, "bids go to the bid side and asks to the ask side", got=sorted(cs), want=sorted(wantc), key="upserts")
     for fn, fld, side in (("upsert_bids", "bids", "Bids"), ("upsert_asks", "asks", "Asks")):
         ub = ctx.fibody(name=fn, self_adt=OB, trait="")
